@@ -17,6 +17,37 @@ package cdb
 //@ modifies buf[0:8]
 //@ ensures le32(buf, 0) == x && le32(buf, 4) == y
 
+// ---- the key hash (C16) -------------------------------------------------------------------------------------
+// The file format's key hash is what the WRITER stores: the value a streaming spooky hasher (cdbHash) yields after
+// Reset and one Write of the key. A lookup can only find a record if it computes the very same function of the key.
+// The two library entry points are kept apart (nothing is assumed about their agreement): spookyStream is the
+// streaming hasher's function of the bytes written since Reset, spookyOne the one-shot spooky.Hash32.
+//@ ufun spookyStream(str) int
+//@ ufun spookyOne(str) int
+// ghost trace of the hashers: per hasher the number of Write calls since Reset and the bytes of the last one;
+// teeOf[w] is the hasher a writer object feeds (a hasher feeds itself, io.MultiWriter(hash, ...) feeds hash), 0 if none
+//@ ghostvar hN seq
+//@ ghostvar hL (Array Int Str)
+//@ ghostvar teeOf seq
+//@ extern hash Hash.Reset
+//@ updates hN
+//@ ensures hN == upd(old(hN), recv, 0)
+//@ extern io Writer.Write
+//@ updates hN, hL
+//@ ensures[tee] teeOf[recv] != 0 && err == nil ==> hN == upd(old(hN), teeOf[recv], old(hN)[teeOf[recv]] + 1) && hL == upd(old(hL), teeOf[recv], string(p))
+//@ ensures[other] teeOf[recv] == 0 ==> hN == old(hN) && hL == old(hL)
+//@ extern hash Hash32.Sum32
+//@ pure
+//@ ensures hN[recv] == 1 ==> result == spookyStream(hL[recv])
+//@ extern github.com/dgryski/go-spooky Hash32
+//@ pure
+//@ ensures result == spookyOne(string(message))
+//@ extern github.com/dgryski/go-spooky New
+//@ ensures result != nil && teeOf[result] == result
+
+//@ func cdbHash
+//@ ensures result != nil && teeOf[result] == result
+
 // Record layout and table bookkeeping of one Put (C16): the record occupies 8+klen+dlen bytes at the old
 // position and is registered, last in put order, in table h%256 with its hash and that position.
 //@ func writer.Put
@@ -24,6 +55,9 @@ package cdb
 //@ ghostret hh int = h
 //@ requires len(w.buf) >= 8 && w.wb != nil && w.hash != nil && w.hw != nil && w.htables != nil
 //@ requires w.pos + 8 + len(key) + len(value) < 4294967296
+//@ requires[tee] teeOf[w.hw] == w.hash && w.hash != nil && ref(key) != ref(w.buf)
+//@ updates hN, hL
+//@ ensures[hash] err == nil ==> hh == spookyStream(old(string(key)))
 //@ modifies w
 //@ modifies w.buf[0:8]
 //@ modifies w.htables
@@ -39,6 +73,7 @@ package cdb
 //@ ghostret lastpos int = pos
 //@ requires context != nil && (context.loop <= context.hslots || context.loop == 0)
 //@ modifies context
+//@ before Cdb.readNums#0 assert[hash] h == spookyStream(string(key))
 //@ ensures[eof] err == io.EOF ==> context.hslots == 0 || context.loop == context.hslots || lastpos == 0
 //@ ensures[errs] err == nil || err == io.EOF
 //@ ensures[hit] err == nil ==> context.loop >= 1 && context.loop <= context.hslots && context.dpos == (lastpos + 8 + len(key)) % 4294967296
